@@ -10,7 +10,7 @@ CONSTANTS
   NoDefault = {"p1"}
   InitScopeSets = {{}, {"all"}}
   ActScopes = {"all", "p1"}
-  MaxNow = 4
+  MaxNow = 3
 CONSTRAINT TimeBound
 INVARIANT TypeOK
 INVARIANT StreamReconstructs
